@@ -1,4 +1,4 @@
 SPECIFICATION Spec
 CONSTANT TrackPieces = TRUE
-INVARIANTS Verdict Accounted Positions Deterministic
+INVARIANTS Verdict Accounted Positions
 CHECK_DEADLOCK TRUE
